@@ -97,7 +97,7 @@ PROPS["C04"] = {
 }
 PROPS["C17"] = {
     "witness_always": ["tfm_fixword"],
-    "witness_bound": {"tfm_fixword": "compress: every non-empty subset of {0..11} x scale {1,3} x class limit 1..4 against brute-force minimal tolerance; next-larger: all 625 functional graphs on 4 characters; fix_word print/parse through the real PL reader, decomposed (the fraction digits depend only on |x| mod 2^20): every 7th (thorough: EVERY) fraction x 3 integer parts x both signs, every integer part 0..2047 x 4 fractions x both signs, and -2048.0; to_scaled: boundary lattice"},
+    "witness_bound": {"tfm_fixword": "compress: every non-empty subset of {0..11} x scale {1,3} x class limit 1..4 against brute-force minimal tolerance, and 25000 (thorough: 200000) pseudo-random multisets of up to 27 values (duplicates, negative values, zero, scales up to 2^26, the two ends of the fix_word range) x class limit 1..8 with the minimal tolerance found over all pairwise differences; next-larger: all 625 functional graphs on 4 characters; fix_word print/parse through the real PL reader, decomposed (the fraction digits depend only on |x| mod 2^20): every 7th (thorough: EVERY) fraction x 3 integer parts x both signs, every integer part 0..2047 x 4 fractions x both signs, and -2048.0; to_scaled: boundary lattice"},
     "level": "proof",
     "verus": ["tfm_fixword"],
     "kani": [],
